@@ -346,6 +346,42 @@ class C01(FsScenario):
                   "events (most lenient natural semantics) over the tree at start() gives exactly the tree on disk at the final quiescence (root's direct children for a non-recursive watch).")
     level_note = "sampling, not proof; real kernel trusted as deterministic serialised component; histories limited to 3 names x depth 3, <=12 (rarely 40) operations"
 
+    paced_share = 0.15  # some histories drain after every operation (the three-step shapes: replace, drain, move out, drain, ...)
+
+    def pick_weights(self, cfg):
+        # a fifth of the runs go on operating on entries after they have left the tree: nothing of that may reach the
+        # stream (the replayed tree would grow entries the disk does not have)
+        return OUT_WEIGHTS if cfg.random() < 0.2 else None
+
+    def tweak(self, case, rng, cfg):
+        if cfg.random() < 0.06:
+            # directed three-step shape the random walk reaches too rarely: a directory replaces an empty directory by
+            # rename, the result leaves the tree, and life goes on inside it outside the tree (nothing of that may be
+            # reported); then its name is re-used
+            names = sorted({n for o in case["pre"] + case["ops"] for q in o[1:] if isinstance(q, str) for n in q.split("/")[1:]} - {"", "o0", "o1"}) or ["a", "b"]
+            if len(names) < 2:
+                names = ["a", "b"]
+            a, b = rng.sample(names, 2)
+            base = "root" if rng.random() < 0.6 else "root/" + rng.choice(names)
+            pre = [] if base == "root" else [["mkdir", base]]
+            src, dst = base + "/" + a, base + "/" + b
+            pre += [["mkdir", src], ["mkdir", dst]]
+            fill = rng.randrange(3)
+            if fill >= 1:
+                pre.append(["mkfile", src + "/" + names[0]])
+            if fill == 2:
+                pre.append(["mkdir", src + "/" + names[1]])
+            outop = rng.choice([["out_mkfile", "out/o0/" + rng.choice(names)], ["out_mkdir", "out/o0/" + rng.choice(names)], ["out_rmtree", "out/o0"]])
+            ops = [["rename", src, dst], ["drain"], ["moveout", dst, "o0"], ["drain"], outop, ["drain"]]
+            if rng.random() < 0.5:
+                ops += [["mkdir", dst], ["drain"], ["mkfile", dst + "/" + rng.choice(names)], ["drain"]]
+            pre_kept, _ = fm.revalidate([], pre, paced=False)
+            kept, _ = fm.revalidate(pre_kept, ops, paced=True, paced_out=self.paced_out)
+            if len(kept) >= 5:
+                case["pre"], case["ops"], case["paced"] = pre_kept, kept, True
+                case.pop("unpaced", None)
+                case["directed"] = "replace-moveout-outside"
+
     def judge(self, run, res, sim, verdict):
         v = generic_violations("C01", sim, verdict, res, run)
         if res.get("done") and res.get("replay"):
@@ -696,7 +732,9 @@ class C19(FsScenario):
                   "file-system encoding, equals the encoded root joined with the real relative name of an entry the history touched.")
     level_note = "polling backend runs on the real tmpfs with the virtual clock driving its poll timer; tmpfs accepts arbitrary byte names"
     names = C19_NAMES
-    name_universes = None
+    # some runs use siblings of which one name is a strict prefix of the other, in the odd alphabets too (a path rewritten
+    # by textual prefix after a rename names an entry that never existed)
+    name_universes = [C19_NAMES, C19_NAMES, C19_NAMES, ("\u00e9", "\u00e9a", "b c"), ("\udcff", "\udcff\udcfe", "a")]
     with_probes = False
     nonrec_share = 0.2
     budget = {"quick": 30, "thorough": 600, "minimise": 90}
